@@ -47,7 +47,7 @@ def classify(req, obs, rule):
     f = req.split()
     if len(f) == 7 and f[0] == "cqrs" and f[1] == "gogo":
         g = f[6].split(".")
-        if len(g) == 5 and g[0] == "s" and g[2].isdigit() and int(g[2]) % 3 == 0:
+        if len(g) == 5 and g[0] == "s" and g[2].isdigit() and int(g[2]) != 0 and int(g[2]) % 3 == 0:
             return GOGO_FINDING
     return None
 
@@ -107,7 +107,11 @@ PROP = {
             "set through protoreflect SetUnknown / XXX_unrecognized), and the value is compared by its exported fields, its unknown bytes and its "
             "deterministic re-marshalling - 300 protobuf values per quick run whose Go OBJECT HAS A PAST (proto.Size / a first Marshal through the same marshaler / proto.Marshal was "
             "called on it, then 1-3 nested messages were edited in place so that their encoded length grows or shrinks) - the edited value is a value "
-            "like any other and must marshal and round-trip - non-serialisable values; 7 name configurations per marshaler incl. closures of ONE function literal (NamedStruct with two fallbacks, "
+            "like any other and must marshal and round-trip - JSON types with UNTYPED members (interface{}, map[string]interface{}, []interface{} at any depth) holding what encoding/json itself decodes "
+            "there (nil, bool, string, float64 incl. integral and > 2^53 values, non-nil slices and maps), so the plain round trip is the identity; "
+            "protobuf: Unmarshal into a USED target (the message of another value of the type was decoded into it before; ^seed suffix), the value "
+            "being any value and, every other case, the all-defaults value of the type (empty encoding; value seed 0); non-serialisable values; "
+            "7 name configurations per marshaler incl. closures of ONE function literal (NamedStruct with two fallbacks, "
             "two prefixes, built by non-inlined constructors) and a value-dependent Name(); the reference name is the configured generator applied to the "
             "value (not marshaler.Name); 900 cases per quick run come AFTER an earlier Marshal in the same process (~seed_variant suffix: another value of "
             "the type, another configuration sharing the function literal, the same value under another configuration) and run first, so a failing one "
@@ -134,7 +138,9 @@ PROP = {
         "gogo/protobuf loses the sign of -0.0 in double fields (its generated encoders skip `v != 0`); the gogo family avoids -0.0 (library behaviour)",
         "finding gogo-marshaler-new-api-message-unknown-fields (checks/c16.findings.json): the deprecated gogo ProtobufMarshaler loses unknown fields "
         "of new-API messages in Marshal; those cases are generated only once the finding is listed in known-findings.json",
-        "JSON family: concretely typed fields only (interface{} fields decode as float64/map), no omitempty on slices/maps, finite floats",
+        "JSON family: typed fields, and untyped members restricted to the values encoding/json decodes into an interface{} (no ints, no typed nil "
+        "inside an interface: those do not round-trip by library design); no omitempty on slices/maps, finite floats; used targets only for protobuf "
+        "(json.Unmarshal merges into maps of a used target by design)",
         "WmModel/ValueJson.lean models the text encoding/json (Go 1.22+: \\b \\f short escapes, HTML escaping on) emits for the envelope and is compared "
         "byte for byte with the real encoder (jenv cases); its decoder is a Lean decoder for that shape, proved to invert the encoder "
         "(Json.json_envelope_round_trip needs no codec hypothesis); that Go's json.Unmarshal computes the same inverse is tested (jdec, env cases), not proved",
